@@ -265,6 +265,14 @@ class chk_proxy(object):
     def floor(self, *a, **kw):
         return self._chk.floor(*a, **kw)
 
+    @property
+    def extra(self):
+        return self._chk.extra
+
+    @property
+    def tier(self):
+        return self._chk.tier
+
 
 def init_paths(c, f, ex):
     loops = _cfg.natural_loops(f)
